@@ -95,8 +95,16 @@ func (g *G) SharedSectionsChange() *Change {
 			}
 		}
 		solvable := r.Intn(5) > 0
+		tight := r.Intn(4) == 0 // nothing but the sections themselves: every run is empty, no position to spare
+		if tight {
+			solvable = true
+		}
 		var elems []string
 		for i, s := range secs {
+			if tight {
+				elems = append(elems, call(s, func(v string) string { return val[v] }))
+				continue
+			}
 			// dead ends in front of the right candidate: one argument differs
 			// a dead end binds a metavariable that this section is the first to mention to something the later
 			// sections contradict
